@@ -195,8 +195,8 @@ theorem closeRequeueStage_state (e9 : Engine) (h9 : e9.state = .disconnected) : 
   exact h13
 
 /-- **Whatever state the engine was in, the connection-closed event leaves it Disconnected.** -/
-theorem handleClosed_state (e : Engine) (h : e.state ≠ .disconnected) : e.handleClosed.1.state = .disconnected := by
-  unfold Engine.handleClosed
+theorem handleClosedCore_state (e : Engine) (h : e.state ≠ .disconnected) : e.handleClosedCore.1.state = .disconnected := by
+  unfold Engine.handleClosedCore
   have hs : (e.state == .disconnected) = false := by simp [h]
   simp only [hs, Bool.false_eq_true, ↓reduceIte]
   generalize he0 : ({ e with state := .disconnected, connackDeadline := none, nextPing := none, pingDeadline := none, timeouts := [] } : Engine) = e0
@@ -226,5 +226,26 @@ theorem handleClosed_state (e : Engine) (h : e.state ≠ .disconnected) : e.hand
         generalize e9.closeRequeueStage = st2 at h14 ⊢
         obtain ⟨e14, rd⟩ := st2
         exact h14
+
+
+/-- the core step leaves the engine Disconnected whatever it was given (a Disconnected engine is returned as it is) -/
+theorem handleClosedCore_state' (e : Engine) : e.handleClosedCore.1.state = .disconnected := by
+  by_cases h : e.state = .disconnected
+  · unfold Engine.handleClosedCore
+    simp [h]
+  · exact handleClosedCore_state e h
+
+/-- **Whatever state the engine was in, the connection-closed event leaves it Disconnected.** -/
+theorem handleClosed_state (e : Engine) (h : e.state ≠ .disconnected) : e.handleClosed.1.state = .disconnected := by
+  unfold Engine.handleClosed
+  have hs : (e.state == .disconnected) = false := by simp [h]
+  simp only [hs, Bool.false_eq_true, ↓reduceIte]
+  generalize Engine.processAckTimeouts (e.timeouts.length + 1) e = x0
+  obtain ⟨ea, ra⟩ := x0
+  simp only []
+  have h1 := handleClosedCore_state' ea
+  generalize ea.handleClosedCore = x1 at h1 ⊢
+  obtain ⟨eb, rb⟩ := x1
+  exact h1
 
 end GV
